@@ -464,11 +464,22 @@ class HttpProxyPlugin(HttpProtocolHandlerPlugin):
                             return
                         self.pipeline_request = r
                     assert self.pipeline_request is not None
+                    # Same treatment as the first request on the connection:
+                    # proxy-authorization and proxy-connection are of no use
+                    # for upstream and --disable-headers must be respected.
+                    self.pipeline_request.del_headers(
+                        [
+                            httpHeaders.PROXY_AUTHORIZATION,
+                            httpHeaders.PROXY_CONNECTION,
+                        ],
+                    )
                     # TODO(abhinavsingh): Remove memoryview wrapping here after
                     # parser is fully memoryview compliant
                     self.upstream.queue(
                         memoryview(
-                            self.pipeline_request.build(),
+                            self.pipeline_request.build(
+                                disable_headers=self.flags.disable_headers,
+                            ),
                         ),
                     )
                     if not self.pipeline_request.is_connection_upgrade:
